@@ -598,9 +598,64 @@ func scenarioMinorityLeaderRepeatedAcks(r *vh.Rand) (string, []string) {
 	return g.c.Header(), g.ops
 }
 
+// scenario 9: a single full voter with two witnesses (quorum 2). The voter restarts and its
+// election timer fires while no witness can be reached; later a read is asked of it.
+func scenarioSingleVoterWithWitnesses(r *vh.Rand) (string, []string) {
+	g := newScenarioGen(r, 1, uint64(5+r.Intn(3)), false, r.Bool())
+	if !g.elect(1, nil) {
+		return g.c.Header(), g.ops
+	}
+	for _, w := range []uint64{2, 3} {
+		g.nextKey++
+		g.cc(1, uint64(pb.AddWitness), w)
+		g.update(1)
+		g.settle(nil)
+		for _, k := range g.liveIDs() {
+			g.update(k)
+			g.apply(k, 100)
+		}
+		g.settle(nil)
+		g.do(fmt.Sprintf("START %d W . -", w))
+		for i := 0; i < 4 && !g.Stopped; i++ {
+			g.do("T 1")
+			g.update(1)
+			g.settle(nil)
+			for _, k := range g.liveIDs() {
+				g.update(k)
+				g.apply(k, 100)
+			}
+		}
+		g.settle(nil)
+	}
+	g.propose(1)
+	g.settle(nil)
+	g.update(1)
+	g.apply(1, 100)
+	// the witnesses are cut off; the voter restarts and times out
+	g.dropPool(func(m pb.Message) bool { return true })
+	g.do("RESTART 1")
+	for i := 0; i < 40 && !g.Stopped; i++ {
+		g.do("T 1")
+		g.update(1)
+		g.dropPool(func(m pb.Message) bool { return true })
+	}
+	g.nextKey++
+	g.do(fmt.Sprintf("R 1 %d 1", g.nextKey))
+	g.update(1)
+	g.dropPool(func(m pb.Message) bool { return true })
+	// the witnesses come back: a proper election and a confirmed read
+	g.elect(1, nil)
+	g.nextKey++
+	g.do(fmt.Sprintf("R 1 %d 1", g.nextKey))
+	g.update(1)
+	g.settle(nil)
+	g.update(1)
+	return g.c.Header(), g.ops
+}
+
 var scenarios = []func(r *vh.Rand) (string, []string){
 	scenarioTransferWithUnappliedChange,
 	scenarioVoteRace, scenarioTransferRemove, scenarioDeposedLeaderRead, scenarioDelayedConfirmation,
 	scenarioReelectedLeaderRead, scenarioWitnessGuardsCommitted, scenarioPromotedNonVotingVotes,
-	scenarioMinorityLeaderRepeatedAcks,
+	scenarioMinorityLeaderRepeatedAcks, scenarioSingleVoterWithWitnesses,
 }
